@@ -367,6 +367,9 @@ def check_C04(A, R, tier):
     # R4.10: a renamed multi-output job is recognised by the outputs it shares with its former id, wherever they stand in the id
     from rules_compare import rule_no_positional_pairing_of_id_pieces
     rule_no_positional_pairing_of_id_pieces(A, R, "R4.10")
+    # R4.11: ... and no fast path switches the lookup off
+    from rules_compare import rule_rename_lookup_finds
+    rule_rename_lookup_finds(A, R, "R4.11")
     sk = skip_kind(A)
     cleanup_kinds = set(A.kind_of(s) for s in C["CleanupOffered"])
     skippable = set(A.kind_of(s) for s in (C["Finished"] - C["FailedLike"]) if reachable_without_running(A, s) and s in reach)
